@@ -228,6 +228,7 @@ static void dump_obj(struct conf_node_object *obj, int depth)
  * valid files; candidate = fuzz bytes.  A rejected candidate must leave the
  * canonical dump unchanged and the hook log empty. */
 #include <sys/stat.h>
+#include <signal.h>
 #ifdef CONFH_ENUM
 static const uint8_t *cur_data;
 static size_t cur_size;
@@ -341,6 +342,14 @@ int LLVMFuzzerTestOneInput(const uint8_t *data, size_t size)
  * usage: conf_enum <shard> <nshards> <workdir> <corpusfile>...  */
 extern void __sanitizer_set_death_callback(void (*)(void));
 static unsigned long n_cases, n_by_kind[4];
+static void enum_on_abort(int sig)
+{
+    static const char msg[] = "ORACLE-FAIL: the code under test aborted (failed assertion?) on this candidate\n";
+    (void)sig;
+    save_current();
+    if (write(2, msg, sizeof(msg) - 1) < 0) { /* ignore */ }
+    _exit(79);
+}
 static void one(uint8_t *buf, size_t n)
 {
     cur_data = buf; cur_size = n;
@@ -358,6 +367,7 @@ int main(int argc, char **argv)
     setenv("VERIF_INPROC_DIR", argv[3], 1);
     snprintf(fail_path, sizeof(fail_path), "%s/enum-fail-%u.bin", argv[3], shard);
     __sanitizer_set_death_callback(save_current);
+    signal(SIGABRT, enum_on_abort);      /* a failed assert() inside the code under test is a failure too */
     for (fi = 4; fi < argc; fi++) {
         static uint8_t text[1 << 16], buf[(1 << 16) + 64];
         size_t n, pos;
